@@ -4,7 +4,7 @@ import itertools
 from core import nats, exc_kind, safe_check
 
 PROPS = ('GambitV.Props.C02', 'GambitV.C02')
-TIE = []
+TIE = [('GambitV.Tie.Metric', 'GambitV.Tie.Metric')]
 RULE = ('pairs of sorted duplicate-free arrays x dtype pair (6x6) x both argument orders. Streams: exhaustive subset pairs of a '
         '6-element universe; structured pairs (empty, equal, disjoint, nested, interleaved, equal last elements, one side exhausted '
         'first, values at the top of each dtype range); random pairs of size <=5000; size-only pairs built from ranges (incl. the '
@@ -43,6 +43,8 @@ def check(ctx, case):
 			except Exception as e:
 				return [], [f'jaccarddist raised {exc_kind(e)}: {e}']
 			lines.append(f'c02.dist {nats(x)} {nats(y)} {bits(d)} {bits(j)}')
+			if len(x) + len(y) <= 400:
+				lines.append(f'gen.jac {nats(x)} {nats(y)} {bits(d)}')
 		return lines, []
 	if kind == 'sizes':
 		N, M, I = case['N'], case['M'], case['I']
@@ -130,6 +132,7 @@ def run(ctx):
 				nontrivial = False
 		ctx.submit(case, lines, nontrivial=nontrivial, tags=[tag], pyfails=pf)
 
+	ctx.submit({'kind': 'gen-facts'}, ['gen.facts'], nontrivial=False, tags=['gen-facts'])
 	# known-finding witness + neighbours below the boundary
 	sub({'kind': 'sizes', 'N': 8423941, 'M': 15860965, 'I': 4468285}, 'witness-C02-F1', False)
 	for (N, M, I) in [(2 ** 23, 2 ** 23, 1), (2 ** 23 + 5, 2 ** 23 - 6, 2), (5000000, 11777215, 0), (2 ** 24 - 1, 1, 1), (2 ** 24 - 1, 0, 0),
